@@ -7,8 +7,10 @@
    (Model/EvmSpec.v `spec_ops`: Yellow Paper, EIP-145, EIP-7939) defines.  `in_range x` is
    0 <= x < 2^256; the first argument is the top of the stack.
    MACHINE LEVEL: at the end of the file. *)
+From stdpp Require Import gmap.
 From Coq Require Import ZArith List Bool Zpow_facts Uint63.
-From VF Require Import Model.EvmSpec Model.EvmWord Model.EvmWordCorr Proofs.EvmWord_lemmas.
+From VF Require Import Gen.Opcodes Model.EvmSpec Model.EvmWord Model.EvmWordCorr Model.EvmMachine
+  Proofs.EvmWord_lemmas Proofs.EvmRefine_lemmas.
 Import ListNotations.
 Open Scope Z_scope.
 
@@ -225,15 +227,61 @@ Proof. vm_compute. repeat split. Qed.
    accepts the right word and reports [spec; impl; word] for a wrong one *)
 Example C17_corr_step_example :
   apply_op spec_ops 29 1 (neg 7) 0 = neg 4 /\ apply_op impl_ops 29 1 (neg 7) 0 = neg 4 /\
-  check_case tt [(W2 29 1 0 0 0 0  1152921504606846969 1152921504606846975 1152921504606846975 1152921504606846975 65535
+  EvmWordCorr.check_case tt [(W2 29 1 0 0 0 0  1152921504606846969 1152921504606846975 1152921504606846975 1152921504606846975 65535
                         1152921504606846972 1152921504606846975 1152921504606846975 1152921504606846975 65535, [])] = None /\
-  check_case tt [(W2 29 1 0 0 0 0  1152921504606846969 1152921504606846975 1152921504606846975 1152921504606846975 65535
+  EvmWordCorr.check_case tt [(W2 29 1 0 0 0 0  1152921504606846969 1152921504606846975 1152921504606846975 1152921504606846975 65535
                         0 0 0 0 0, [])] = Some (0, [neg 4; neg 4; 0], []).
 Proof. vm_compute. repeat split. Qed.
 
 (* ================================================================================================
-   MACHINE LEVEL -- C17_machine_refines_spec
-   (interpreter model Model/EvmMachine.v run with impl_ops = the same machine run with spec_ops).
-   Added below once Model/EvmMachine.v is available; the lemmas about it live in
-   Proofs/EvmRefine_lemmas.v.
+   MACHINE LEVEL.  Model/EvmMachine.v is the interpreter (jump table, stack discipline of the def_*
+   macros, memory, storage, control flow, calls as oracle inputs), parametrised by a word_ops.
+   Running it with the implementation's word algorithms is the SAME function as running it with the
+   specification's: for every environment (code, call data, hash function, context, oracle answers),
+   every fuel and every state whose stack holds words.  What remains between "the machine with
+   spec_ops" and the Ethereum specification of the non-word instructions is the subject of the
+   machine's own correspondence check and theorems (not of this file).
    ================================================================================================ *)
+
+(* generic form: any two instruction sets that agree on words, the second mapping words to words *)
+Theorem C17_machine_refines_generic : forall o1 o2, ops_agree o1 o2 -> ops_closed o2 ->
+  forall E fuel s, Forall in_range (m_stack s) -> run o1 E fuel s = run o2 E fuel s.
+Proof. exact run_agree. Qed.
+
+Theorem C17_machine_refines_spec : forall E fuel s, Forall in_range (m_stack s) ->
+  run impl_ops E fuel s = run spec_ops E fuel s.
+Proof. exact machine_refines_spec. Qed.
+
+(* from the state every execution starts in (empty stack), unconditionally *)
+Theorem C17_machine_refines_spec_from_start : forall E fuel storage balance ext,
+  run impl_ops E fuel (init_state storage balance ext) = run spec_ops E fuel (init_state storage balance ext).
+Proof. exact machine_refines_spec_init. Qed.
+
+(* the doubling form of `run` the correspondence check evaluates *)
+Theorem C17_machine_pow_refines_spec : forall E n s, Forall in_range (m_stack s) ->
+  run_pow impl_ops E n s = run_pow spec_ops E n s.
+Proof. exact machine_pow_refines_spec. Qed.
+
+(* the invariant behind it: one step of the machine leaves only words on the stack *)
+Theorem C17_machine_stack_holds_words : forall E s s', Forall in_range (m_stack s) ->
+  step spec_ops E s = SNext s' -> Forall in_range (m_stack s').
+Proof. intros E s s'. exact (step_ok spec_ops spec_ops_closed E s s'). Qed.
+
+(* and on such states the two machines take literally the same step *)
+Theorem C17_machine_same_step : forall E s, Forall in_range (m_stack s) ->
+  step impl_ops E s = step spec_ops E s.
+Proof. intros E s. exact (step_agree impl_ops spec_ops impl_ops_agree E s). Qed.
+
+(* non-vacuity: PUSH32 (-7) PUSH1 1 SAR PUSH0 MSTORE PUSH1 32 PUSH0 RETURN returns the word -4 on both *)
+Definition ex_code : list Z :=
+  [127] ++ Z_to_be 32 (neg 7) ++ [96; 1; 29; 95; 82; 96; 32; 95; 243].
+Definition ex_env : env :=
+  {| e_code := ex_code; e_calldata := []; e_readonly := false; e_keccak := fun _ => 0;
+     e_ctx := fun _ => 0; e_keyed := fun _ _ => 0; e_extcode := fun _ => []; e_acct_kind := fun _ => 0 |}.
+Definition returns_word (r : run_res) (w : Z) : Prop :=
+  match r with Done (Return d) _ => be_to_Z d = w /\ length d = 32%nat | _ => False end.
+
+Example C17_machine_nonvacuous :
+  returns_word (run impl_ops ex_env 20 (init_state ∅ 0 [])) (neg 4) /\
+  returns_word (run spec_ops ex_env 20 (init_state ∅ 0 [])) (neg 4).
+Proof. vm_compute. repeat split. Qed.
